@@ -208,7 +208,13 @@ def run_pn_linesearch(ctx, rep, n_cases=None):
         if rng.random() < 0.3:      # exact descent-like direction: minus gradient
             g = X[:, ws].T @ np.asarray(dobj.raw_grad(y, Xw0))
             dws = -scale * g
+        ascent = rng.random() < 0.15
+        if ascent:                  # an ascent direction: every test of the search fails (the `for ... else` exit)
+            g = X[:, ws].T @ np.asarray(dobj.raw_grad(y, Xw0))
+            dws = scale * (g + 0.1 * np.sign(g))
         db = rng.gauss(0, 1) * scale if fi else 0.0
+        if ascent and fi:
+            db = scale * float(np.sum(np.asarray(dobj.raw_grad(y, Xw0))))
         dfull = np.zeros(p)
         dfull[ws] = dws
         Xd = X @ dfull + db
@@ -244,8 +250,9 @@ def run_pn_linesearch(ctx, rep, n_cases=None):
         dn = np.asarray(inp["delta_w_ws"])[:len(ws)]
         k = int(np.argmax(np.abs(dn))) if len(dn) else 0
         t = (w1[ws[k]] - w0[ws[k]]) / dn[k] if len(dn) and dn[k] != 0 else float("nan")
+        stayed = bool(np.all(w1[:p] == w0) or np.allclose(w1[:p], w0, rtol=0, atol=1e-12 * (1 + float(np.max(np.abs(w0))))))
         rep.count(f"pn:ls:{inp['datafit']['kind']}:{inp['penalty']['kind']}:{'csc' if sparse else 'dense'}:"
-                  f"{'full' if m_acc == 'T' else 'backtracked'}", False, ("pn", sparse, hash(line)))
+                  f"{'full' if m_acc == 'T' else 'failed' if stayed else 'backtracked'}", False, ("pn", sparse, hash(line)))
         # near-ties of the acceptance test can resolve differently in floating point: compare only clear cases
         clear = isinstance(m_test, str) or math.isinf(m_test) or abs(m_test) > 1e-9
         if clear and not same(i_state, m_state, 1e-8, 1e-10):
@@ -254,7 +261,7 @@ def run_pn_linesearch(ctx, rep, n_cases=None):
         # C03 at the level of one line search (theorem `backtrack_descends_or_fails`): a step accepted before the
         # budget of halvings ran out strictly decreases the documented objective (convex datafits, any penalty)
         df, pen = meta_df[id(inp)], meta_pen[id(inp)]
-        if math.isfinite(t) and t > 2.0 ** -(MAX_BACKTRACK_ITER - 2):
+        if True:      # theorem `backtrack_never_ascends`: accepted step -> strict descent; no step accepted -> start point
             y = np.asarray(inp["y"])
             wts = inp["weights"]
 
@@ -263,7 +270,7 @@ def run_pn_linesearch(ctx, rep, n_cases=None):
                 return df.ref_value(np.ones(len(y)), y, u, w) + sum(pen.ref_pen1(x, tt) for x, tt in zip(w, wts))
             f0, f1 = F(w0, b0), F(w1[:p], w1[p])
             if math.isfinite(f0) and not (f1 <= f0 + 1e-9 * (1 + abs(f0))):
-                rep.violate("the prox-Newton line search accepts a step that increases the documented objective",
+                rep.violate("the prox-Newton line search returns a point with a larger documented objective than its start",
                             dict(site=site, kind="ascent"), input=dict(inp, step=t),
                             impl_output=dict(w=w1.tolist()), oracle=dict(before=f0, after=f1), lines=[line])
         buf = X @ w1[:p] + w1[p]
